@@ -42,11 +42,12 @@ Definition sab := [97%N; 98%N].
 
 (* ---------- refutations (known deviations of the pinned tree) ---------- *)
 
-(* allOf:[{type:string},{minLength:1},{maxLength:3}] rejects "ab" *)
+(* allOf:[{type:string},{minLength:1},{maxLength:3}] accepts "ab": the member without constraints
+   is dropped and matchN counts the members that were kept (was C13-F1, fixed) *)
 Definition w_allOf := SObj A0 (p_allOf [S_type [TyString]; SObj (a_with_minLength 1%N) P0; SObj (a_with_maxLength 3%N) P0]).
-Lemma allOf_unconstrained_member_refuted :
-  valid re_a w_allOf (JStr sab) = true /\ encode re_a w_allOf (JStr sab) = false /\
-  r_dev (enc re_a w_allOf mall) = [DEV_allOf_count].
+Lemma allOf_unconstrained_member_correct :
+  valid re_a w_allOf (JStr sab) = true /\ encode re_a w_allOf (JStr sab) = true /\
+  r_dev (enc re_a w_allOf mall) = [].
 Proof. vm_compute. auto. Qed.
 
 (* allOf:[true,false] accepts 1 *)
@@ -77,11 +78,12 @@ Lemma prefixItems_refuted :
   r_dev (enc re_a w_prefix mall) = [DEV_prefixItems].
 Proof. vm_compute. auto. Qed.
 
-(* patternProperties:{"^a":{type:integer}}, additionalProperties:{type:string} accepts {"":1} *)
+(* patternProperties:{"^a":{type:integer}}, additionalProperties:{type:string} rejects {"":1}
+   (was C13-F6, fixed: no exclusion conjunct without property names, the empty name is not skipped) *)
 Definition w_empty := SObj A0 (p_obj None (Some [(0%N, S_type [TyInteger])]) (Some (S_type [TyString]))).
-Lemma empty_name_refuted :
-  valid re_a w_empty (JObj [([], JNum 2%Z)]) = false /\ encode re_a w_empty (JObj [([], JNum 2%Z)]) = true /\
-  r_dev (enc re_a w_empty mall) = [DEV_empty_name].
+Lemma empty_name_correct :
+  valid re_a w_empty (JObj [([], JNum 2%Z)]) = false /\ encode re_a w_empty (JObj [([], JNum 2%Z)]) = false /\
+  r_dev (enc re_a w_empty mall) = [].
 Proof. vm_compute. auto. Qed.
 
 (* properties:{p:{if:{type:string},then:false}} rejects {"p":1} *)
@@ -98,16 +100,16 @@ Lemma oneOf_false_member_refuted :
   r_dev (enc re_a w_oneOf mall) = [DEV_oneOf_false; DEV_error_member].
 Proof. vm_compute. auto. Qed.
 
-(* type:[integer,number] rejects 1.5 *)
+(* type:[integer,number] accepts 1.5 (was C13-F10, fixed: `int` is only added when "number" is not listed) *)
 Definition w_intnum := S_type [TyInteger; TyNumber].
-Lemma integer_and_number_refuted :
-  valid re_a w_intnum (JNum 3%Z) = true /\ encode re_a w_intnum (JNum 3%Z) = false /\
-  r_dev (enc re_a w_intnum mall) = [DEV_integer_and_number].
+Lemma integer_and_number_correct :
+  valid re_a w_intnum (JNum 3%Z) = true /\ encode re_a w_intnum (JNum 3%Z) = true /\
+  r_dev (enc re_a w_intnum mall) = [].
 Proof. vm_compute. auto. Qed.
 
 (* the fragment hypothesis of encode_correct cannot be dropped *)
 Theorem encode_correct_needs_fragment : exists re s j, encode re s j <> valid re s j.
-Proof. exists re_a, w_allOf, (JStr sab). vm_compute. discriminate. Qed.
+Proof. exists re_a, w_pnames, (JObj [(sb, JNum 2%Z)]). vm_compute. discriminate. Qed.
 
 (* ---------- the named interactions, inside the fragment ---------- *)
 Section Named.
